@@ -920,6 +920,186 @@ fn stream_unused(ctx: &mut Ctx, schema: &Valid<Schema>) {
     }
 }
 
+
+// ------------------------------------------------------------------------------------------------
+// several operations sharing fragments that use variables (rules 5.8.3–5.8.5 are PER OPERATION)
+// ------------------------------------------------------------------------------------------------
+const SCHEMA_SHARED: &str = r#"
+type Query {
+  item(id: Int, name: String): Item
+  flag(on: Boolean!): Boolean
+  items(ids: [Int!], first: Int! = 1): [Item]
+  me: Item
+}
+type Item { id: Int name: String sub(id: Int): Item }
+"#;
+
+/// (variable, selection text using it, compatible declarations, incompatible declarations)
+struct VarUse { var: &'static str, on_query: &'static str, on_item: &'static str, good: &'static [&'static str], bad: &'static [&'static str] }
+const VAR_USES: [VarUse; 6] = [
+    VarUse { var: "id", on_query: "item(id: $id) { id }", on_item: "sub(id: $id) { id }", good: &["Int", "Int!", "Int = 3"], bad: &["String", "[Int]", "Boolean", "ID"] },
+    VarUse { var: "name", on_query: "item(name: $name) { name }", on_item: "n: name @skip(if: false) @include(if: $inc2)", good: &["String", "String!"], bad: &["Int", "[String]"] },
+    VarUse { var: "on", on_query: "flag(on: $on)", on_item: "id @skip(if: $on)", good: &["Boolean!", "Boolean = true", "Boolean! = false"], bad: &["Boolean", "Boolean = null", "Int!", "[Boolean!]!"] },
+    VarUse { var: "inc", on_query: "me { ... @include(if: $inc) { name } }", on_item: "... @include(if: $inc) { name }", good: &["Boolean!", "Boolean = false"], bad: &["Boolean", "String!"] },
+    VarUse { var: "ids", on_query: "items(ids: $ids) { id }", on_item: "i2: id @skip(if: $on)", good: &["[Int!]", "[Int!]!", "[Int!] = [1]"], bad: &["[Int]", "Int", "[Int]!", "[[Int!]]"] },
+    VarUse { var: "first", on_query: "items(first: $first) { id }", on_item: "i3: id", good: &["Int", "Int!", "Int = 2"], bad: &["String", "[Int!]", "Float"] },
+];
+/// variables a piece of selection text mentions
+fn vars_in(text: &str) -> Vec<&'static str> {
+    let mut out = vec![];
+    for name in ["id", "name", "on", "inc2", "inc", "ids", "first"] {
+        let pat = format!("${name}");
+        let mut i = 0;
+        while let Some(p) = text[i..].find(&pat) {
+            let end = i + p + pat.len();
+            let next = text[end..].chars().next();
+            if !next.map_or(false, |c| c.is_ascii_alphanumeric() || c == '_') { if !out.contains(&name) { out.push(name); } }
+            i = end;
+        }
+    }
+    out
+}
+fn decl_choices(var: &str) -> (&'static [&'static str], &'static [&'static str]) {
+    match var {
+        "inc2" => (&["Boolean!", "Boolean = true"], &["Boolean", "Int"]),
+        v => { let u = VAR_USES.iter().find(|u| u.var == v).unwrap(); (u.good, u.bad) }
+    }
+}
+
+fn stream_shared(ctx: &mut Ctx, schema: &Valid<Schema>) {
+    // fixed documents (the shapes of the independently seeded change), both orders
+    for t in [
+        "query A($id: Int) { ...F } query B($id: Int) { ...F } fragment F on Query { item(id: $id) { id } }",
+        "query A($id: Int) { ...F } query B { ...F } fragment F on Query { item(id: $id) { id } }",
+        "query B { ...F } query A($id: Int) { ...F } fragment F on Query { item(id: $id) { id } }",
+        "query A($id: Int) { ...F } query B($id: String) { ...F } fragment F on Query { item(id: $id) { id } }",
+        "query B($id: String) { ...F } query A($id: Int) { ...F } fragment F on Query { item(id: $id) { id } }",
+        "query A($on: Boolean!) { ...F } query B($on: Boolean) { ...F } fragment F on Query { flag(on: $on) }",
+        "query A($on: Boolean!) { ...F } query B($on: Boolean = true) { ...F } fragment F on Query { flag(on: $on) }",
+        "query A($id: Int) { ...G } query B { me { id } ...G } fragment G on Query { ... on Query { ...F } } fragment F on Query { item(id: $id) { id } }",
+        "query A($id: Int) { ...F } query B($id: Int, $x: Int) { ...F } fragment F on Query { item(id: $id) { id } }",
+        "query A($on: Boolean!) { me { ...I } } query B { me { ...I } } fragment I on Item { id @skip(if: $on) }",
+        "query A($id: Int) { ...F } mutation M { ...F } fragment F on Query { item(id: $id) { id } }",
+        "query A($id: Int) { ...F } query B($id: Int) { me { id } } fragment F on Query { item(id: $id) { id } }",
+        "query A($id: Int) { ...F } query B($id: Int!) { ...F } query C($id: [Int]) { ...F } fragment F on Query { item(id: $id) { id } }",
+    ] { check_doc(ctx, schema, t, "shared-regression"); }
+    let n = if ctx.thorough { 40_000 } else { 4_000 };
+    for it in 0..n {
+        // fragments: F0..F{nf-1}; Fi may spread Fj (j > i); each on Query or Item
+        let nf = 1 + ctx.rng.below(3);
+        let mut on_item: Vec<bool> = (0..nf).map(|_| ctx.rng.chance(1, 3)).collect();
+        let mut bodies: Vec<String> = vec![];
+        let mut spreads: Vec<Vec<usize>> = vec![vec![]; nf];
+        for i in 0..nf {
+            let nuse = 1 + ctx.rng.below(2);
+            let mut sels: Vec<String> = vec![];
+            for _ in 0..nuse {
+                let u = ctx.rng.pick(&VAR_USES);
+                sels.push(if on_item[i] { u.on_item.to_string() } else { u.on_query.to_string() });
+            }
+            for j in i + 1..nf {
+                if ctx.rng.chance(1, 3) {
+                    spreads[i].push(j);
+                    let sp = format!("...F{j}");
+                    let wrapped = match (on_item[i], on_item[j]) {
+                        (false, false) => if ctx.rng.chance(1, 2) { format!("... on Query {{ {sp} }}") } else { sp },
+                        (false, true) => format!("me {{ {sp} }}"),
+                        (true, true) => if ctx.rng.chance(1, 2) { format!("sub {{ {sp} }}") } else { format!("... {{ {sp} }}") },
+                        (true, false) => { spreads[i].pop(); String::new() }
+                    };
+                    if !wrapped.is_empty() { sels.push(wrapped); }
+                }
+            }
+            // de-duplicate response keys inside one fragment (keeps the document free of merge conflicts)
+            sels.dedup();
+            bodies.push(sels.join(" "));
+        }
+        if on_item.iter().all(|b| *b) && ctx.rng.chance(1, 2) { on_item[0] = false; bodies[0] = VAR_USES[0].on_query.to_string(); spreads[0].clear(); }
+        let reach = |roots: &[usize]| -> Vec<usize> {
+            let mut seen: Vec<usize> = vec![];
+            let mut stack: Vec<usize> = roots.to_vec();
+            while let Some(j) = stack.pop() { if !seen.contains(&j) { seen.push(j); stack.extend(spreads[j].iter().copied()); } }
+            seen
+        };
+        let nops = 2 + ctx.rng.below(3);
+        let fault_op = if it % 3 == 0 { usize::MAX } else { ctx.rng.below(nops) };
+        let fault_kind = ctx.rng.below(4);
+        let mut ops: Vec<String> = vec![];
+        let mut used_any = vec![false; nf];
+        for o in 0..nops {
+            let mut roots: Vec<usize> = (0..nf).filter(|_| ctx.rng.chance(1, 2)).collect();
+            if roots.is_empty() && ctx.rng.chance(3, 4) { roots.push(ctx.rng.below(nf)); }
+            if o == nops - 1 { for j in 0..nf { if !used_any[j] && !reach(&roots).contains(&j) { roots.push(j); } } }
+            for j in reach(&roots) { used_any[j] = true; }
+            let mut body: Vec<String> = vec![];
+            for (k, j) in roots.iter().enumerate() {
+                let sp = format!("...F{j}");
+                body.push(if on_item[*j] { format!("m{k}: me {{ {sp} }}") } else if ctx.rng.chance(1, 3) { format!("... on Query {{ {sp} }}") } else { sp });
+            }
+            if body.is_empty() { body.push("me { id }".into()); }
+            let mut needed: Vec<&'static str> = vec![];
+            for j in reach(&roots) { for v in vars_in(&bodies[j]) { if !needed.contains(&v) { needed.push(v); } } }
+            let mut decls: Vec<String> = vec![];
+            let mut faulted = false;
+            for (vi, v) in needed.iter().enumerate() {
+                let (good, bad) = decl_choices(v);
+                if o == fault_op && !faulted && (vi + 1 == needed.len() || ctx.rng.chance(1, 2)) {
+                    match fault_kind {
+                        0 => { faulted = true; continue; }                                  // undefined in this operation
+                        1 | 2 => { faulted = true; decls.push(format!("${v}: {}", ctx.rng.pick(bad))); continue; }
+                        _ => {}
+                    }
+                }
+                decls.push(format!("${v}: {}", ctx.rng.pick(good)));
+            }
+            if o == fault_op && fault_kind == 3 { decls.push("$extra: Int".into()); faulted = true; }
+            if o == fault_op && faulted { ctx.stat(&format!("shared:fault-kind-{fault_kind}-op-{}", if o == 0 { "first" } else { "later" })); }
+            let vars = if decls.is_empty() { String::new() } else { format!("({})", decls.join(", ")) };
+            ops.push(format!("query Op{o}{vars} {{ {} }}", body.join(" ")));
+        }
+        let mut text = ops.join("\n");
+        for i in 0..nf { text.push_str(&format!("\nfragment F{i} on {} {{ {} }}", if on_item[i] { "Item" } else { "Query" }, bodies[i])); }
+        match check_doc(ctx, schema, &text, "shared") { Some(true) => ctx.stat("shared:valid"), Some(false) => ctx.stat("shared:invalid"), None => {} }
+    }
+}
+
+/// per-operation validation of fragments: k operations without variable definitions, every fragment
+/// uses the undefined `$x` once — one UndefinedVariable diagnostic per (operation, reachable fragment)
+fn stream_perop(ctx: &mut Ctx, schema: &Valid<Schema>) {
+    let n = if ctx.thorough { 15_000 } else { 1_500 };
+    for _ in 0..n {
+        let nf = 1 + ctx.rng.below(4);
+        let mut edges: Vec<Vec<usize>> = vec![];
+        for i in 0..nf { let mut e = vec![]; for j in i + 1..nf { if ctx.rng.chance(1, 3) { e.push(j); } } edges.push(e); }
+        let nops = 1 + ctx.rng.below(3);
+        let mut ops: Vec<Vec<usize>> = vec![];
+        for _ in 0..nops { let mut o: Vec<usize> = (0..nf).filter(|_| ctx.rng.chance(1, 2)).collect(); if ctx.rng.chance(1, 4) { if let Some(&f) = o.first() { o.push(f); } } ops.push(o); }
+        let mut text = String::new();
+        for (k, o) in ops.iter().enumerate() {
+            text.push_str(&format!("query Q{k} {{ me {{ id }} "));
+            for j in o { text.push_str(&format!("...F{j} ")); }
+            text.push_str("} ");
+        }
+        for (i, e) in edges.iter().enumerate() {
+            text.push_str(&format!("fragment F{i} on Query {{ a{i}: item(id: $x) {{ id }} "));
+            for j in e { text.push_str(&format!("... on Query {{ ...F{j} }} ")); }
+            text.push_str("} ");
+        }
+        let count = match catch(|| ExecutableDocument::parse_and_validate(schema, &text, "d.graphql")) {
+            Err(p) => { ctx.fail("panic", &text, &p); continue }
+            Ok(Ok(_)) => 0,
+            Ok(Err(e)) => e.errors.iter().filter(|d| d.error.unstable_error_name() == Some("UndefinedVariable")).count(),
+        };
+        let enc_list = |v: &[usize]| v.iter().map(|j| j.to_string()).collect::<Vec<_>>().join(",");
+        let o_enc = ops.iter().map(|o| enc_list(o)).collect::<Vec<_>>().join("/");
+        let g = edges.iter().map(|e| enc_list(e)).collect::<Vec<_>>().join("|");
+        ctx.stat(&format!("perop:{}", count.min(6)));
+        ctx.nontrivial(&text);
+        ctx.case("c17.perop", &[format!("={o_enc}/"), format!("={g}|")], &count.to_string());
+        check_doc(ctx, schema, &text, "perop");
+    }
+}
+
 // the repository's own diagnostics/ok corpus, split into schema + executable parts ----------------
 fn corpus(ctx: &mut Ctx) {
     let base = std::env::var("VERIF_REPO").unwrap_or_else(|_| "/repo".into());
@@ -1028,6 +1208,9 @@ pub fn run(ctx: &mut Ctx) {
     stream_subscription(ctx, &sub);
     stream_merge(ctx, &small);
     stream_unused(ctx, &small);
+    let shared = load(SCHEMA_SHARED);
+    stream_shared(ctx, &shared);
+    stream_perop(ctx, &shared);
     // grammar-directed documents, unfaulted and with one rule-targeted fault
     let n = if ctx.thorough { 120_000 } else { 9_000 };
     let mut nfault = 0usize;
